@@ -21,7 +21,10 @@ import (
 	p4 "github.com/p4lang/p4runtime/go/p4/v1"
 	"github.com/wmnsk/go-pfcp/ie"
 	"github.com/wmnsk/go-pfcp/message"
+	"go.uber.org/zap"
 )
+
+var _ = zap.InfoLevel
 
 var _ *ie.IE
 var _ layers.IPv4
@@ -967,3 +970,56 @@ func specVerbatim(p *pdr, f *ipFilterRule, oldProto, oldMask uint8) bool {
 //@   loop 1 invariant C08.app.l.count: rangeidx+1 <= len(apfd.flowDescs) && glen("flowdesc") == old[int](glen("flowdesc"))+rangeidx+1
 //@   loop 1 invariant C08.app.l.skipped: forall e int :: old[int](glen("flowdesc")) <= e && e < glen("flowdesc") ==> specFlowResult(gentry("flowdesc", e)) != nil && live(specFlowResult(gentry("flowdesc", e))) && !specDirMatches(p, specFlowResult(gentry("flowdesc", e)))
 //@   loop 1 invariant C08.app.l.same: p.appFilter == old[applicationFilter](p.appFilter) && p.srcIface == old[uint8](p.srcIface) && p.ueAddress == old[uint32](p.ueAddress)
+
+// ---------------------------------------------------------------------------
+// C18: configuration loading yields a validated configuration or an error
+// ---------------------------------------------------------------------------
+
+// Ghost functions of texts (used by the assumed contracts of net.ParseCIDR, time.ParseDuration).
+func specCIDROK(s string) bool { panic("ghost") }
+
+func specCIDRIs4(s string) bool { panic("ghost") }
+
+func specCIDRAddr4(s string) uint32 { panic("ghost") }
+
+func specCIDRMask4(s string) uint32 { panic("ghost") }
+
+func specParsesDuration(s string) bool { panic("ghost") }
+
+// specParsesIP: net.ParseIP accepts the text.
+func specParsesIP(s string) bool { panic("ghost") }
+
+func specModeOK(m string) bool {
+	return m == "af_xdp" || m == "af_packet" || m == "cndp" || m == "dpdk" || m == "sim"
+}
+
+// specValidConf: what validateConf promises about a configuration it accepts.
+func specValidConf(conf Conf) bool {
+	return implies(conf.EnableP4rt, specCIDROK(conf.P4rtcIface.AccessIP) && specCIDROK(conf.CPIface.UEIPPool) && conf.Mode == "") &&
+		implies(!conf.EnableP4rt, specModeOK(conf.Mode)) &&
+		implies(conf.CPIface.EnableUeIPAlloc, specCIDROK(conf.CPIface.UEIPPool)) &&
+		forall(func(a int) bool { return implies(lo(conf.CPIface.Peers) <= a && a < hi(conf.CPIface.Peers), specParsesIP(at(conf.CPIface.Peers, a))) }) &&
+		specParsesDuration(conf.RespTimeout) && conf.ReadTimeout != 0 && conf.MaxReqRetries != 0 &&
+		implies(conf.EnableHBTimer, specParsesDuration(conf.HeartBeatInterval))
+}
+
+//@ func validateConf(conf Conf) (err error)
+//@   ensures C18.validate: err == nil ==> specValidConf(conf)
+//@   loop 1 invariant C18.validate.peers: rangeidx+1 <= len(conf.CPIface.Peers) && (forall a int :: lo(conf.CPIface.Peers) <= a && a < lo(conf.CPIface.Peers)+rangeidx+1 ==> specParsesIP(at(conf.CPIface.Peers, a)))
+
+func specUnmarshalPre(e int) *Conf { return ptrAt[Conf](int(gfield("unmarshal.pre", e))) }
+
+func specUnmarshalPost(e int) *Conf { return ptrAt[Conf](int(gfield("unmarshal.post", e))) }
+
+//@ func LoadConfigFile(filepath string) (conf Conf, err error)
+//@   ensures C18.load.valid: err == nil ==> specValidConf(conf)
+//@   ensures C18.load.parsed: err == nil ==> glen("unmarshal") == old[int](glen("unmarshal"))+1
+//@   ensures C18.load.predefaults: glen("unmarshal") == old[int](glen("unmarshal"))+1 ==> specUnmarshalPre(gentry("unmarshal", old[int](glen("unmarshal")))).LogLevel == zap.InfoLevel && specUnmarshalPre(gentry("unmarshal", old[int](glen("unmarshal")))).P4rtcIface.DefaultTC == 3
+//@   ensures C18.load.defaults: err == nil ==> (specUnmarshalPost(gentry("unmarshal", old[int](glen("unmarshal")))).RespTimeout == "" ==> conf.RespTimeout == "2s") && (specUnmarshalPost(gentry("unmarshal", old[int](glen("unmarshal")))).ReadTimeout == 0 ==> conf.ReadTimeout == 15) && (specUnmarshalPost(gentry("unmarshal", old[int](glen("unmarshal")))).MaxReqRetries == 0 ==> conf.MaxReqRetries == 5) && (conf.EnableHBTimer && specUnmarshalPost(gentry("unmarshal", old[int](glen("unmarshal")))).HeartBeatInterval == "" ==> conf.HeartBeatInterval == "5s")
+//@   ensures C18.load.kept: err == nil ==> (specUnmarshalPost(gentry("unmarshal", old[int](glen("unmarshal")))).RespTimeout != "" ==> conf.RespTimeout == specUnmarshalPost(gentry("unmarshal", old[int](glen("unmarshal")))).RespTimeout) && conf.Mode == specUnmarshalPost(gentry("unmarshal", old[int](glen("unmarshal")))).Mode && conf.LogLevel == specUnmarshalPost(gentry("unmarshal", old[int](glen("unmarshal")))).LogLevel && conf.P4rtcIface.DefaultTC == specUnmarshalPost(gentry("unmarshal", old[int](glen("unmarshal")))).P4rtcIface.DefaultTC && conf.EnableP4rt == specUnmarshalPost(gentry("unmarshal", old[int](glen("unmarshal")))).EnableP4rt
+//@   ensures C18.load.zero: err != nil ==> conf.Mode == "" && conf.RespTimeout == "" && conf.ReadTimeout == 0 && conf.MaxReqRetries == 0 && !conf.EnableP4rt && len(conf.CPIface.Peers) == 0
+
+// The comment-stripping pattern is pinned to the reviewed text: its semantics (line comments and
+// non-greedy single-line block comments) is not decided by the verifier, only that the code still
+// uses exactly this pattern.
+//@ pinned regexp.MustCompile `(?m)//.*$|/\*.*?\*/`
